@@ -28,6 +28,8 @@ NUMS = [0.0, -0.0, 1.0, -1.0, 7.0, 42.0, -42.0, 255.0, 256.0, 65535.0, 1e6, 1234
         9.5, 0.95, 0.0095, 1e15, 1e16, 1e17, 1e21, 1e22, 1e23, 1e-7, 5e-324, 2.2250738585072014e-308, 1.7976931348623157e308,
         -1.7976931348623157e308, 1e100, 1e-100, 3.14159265358979, 2.718281828, 1 / 3, 2 / 3, 123.456, 0.1, 0.2, 0.3, 1e-4,
         0.0001234, 99999.95, 999999.95, 0.99999995, 12345.678, 4.9e-324, 1e300, 2.0 ** 53, 2.0 ** 63, 2.0 ** 64, 1e20]
+TIES = [k + 0.5 for k in range(-6, 12)] + [k / 8 for k in range(-9, 20)] + [0.25, 0.75, 1.25, 0.125, 0.375, 0.625, 2.125, 1e15 + 0.5, 4503599627370496.5,
+        0.05, 0.15, 0.45, 1.45, 2.675, 1.005, 1234.5, 12345.5, 0.0625, 0.03125, 99.5, 999.5, 9999.5, 9.5, -9.5, -99.5, -0.5, -0.25, -0.75]
 STRS = ["", "a", "abc", "é", "ééé", "中文", "\U0001f600x", "á", "%", "x y", "tab\t", "ß"]
 INT_CONVS = "diuoxX"
 FLOAT_CONVS = "eEfF"
@@ -42,11 +44,11 @@ def directive(draw):
     if conv in "cs%":
         p = draw(st.one_of(st.none(), st.none(), st.integers(0, 5)))
     else:
-        p = draw(st.one_of(st.none(), st.none(), st.integers(0, 20), st.sampled_from([0, 1, 2, 17, 18, 30, 100, 1001, 1100, 65535, 65536, 70000]),
+        p = draw(st.one_of(st.none(), st.none(), st.integers(0, 20), st.integers(0, 3), st.sampled_from([0, 1, 2, 17, 18, 30, 100, 1001, 1100, 65535, 65536, 70000]),
                            st.just("*")))
     lm = draw(st.sampled_from(["", "", "", "h", "l", "L"]))
     if conv in INT_CONVS or conv in FLOAT_CONVS or conv in G_CONVS:
-        val = draw(st.one_of(st.sampled_from(NUMS), V.finite_doubles(), st.integers(-10 ** 6, 10 ** 6).map(float)))
+        val = draw(st.one_of(st.sampled_from(NUMS), st.sampled_from(TIES), V.finite_doubles(), st.integers(-10 ** 6, 10 ** 6).map(float)))
         val = {"n": V.f2h(val)}
     elif conv == "c":
         val = draw(st.one_of(st.sampled_from(["a", "é", "\U0001f600", "中"]), st.sampled_from([65.0, 233.0, 0x1f600, 0x4e2d]).map(lambda x: {"n": V.f2h(x)})))
@@ -55,7 +57,7 @@ def directive(draw):
     else:
         val = None
     wv = draw(st.integers(0, 30)) if w == "*" else None
-    pv = draw(st.integers(0, 25)) if p == "*" else None
+    pv = draw(st.one_of(st.integers(0, 3), st.integers(0, 25))) if p == "*" else None
     return {"flags": flags, "w": w, "p": p, "lm": lm, "conv": conv, "val": val, "wv": wv, "pv": pv}
 
 
